@@ -9,6 +9,20 @@
 // differs (printed).
 #include "replay.hpp"
 #include <opm/input/eclipse/Schedule/UDQ/UDQSet.hpp>
+#include <opm/common/OpmLog/KeywordLocation.hpp>
+#include <opm/common/utility/TimeService.hpp>
+#include <opm/input/eclipse/EclipseState/Grid/RegionSetMatcher.hpp>
+#include <opm/input/eclipse/Schedule/MSW/SegmentMatcher.hpp>
+#include <opm/input/eclipse/Schedule/SummaryState.hpp>
+#include <opm/input/eclipse/Schedule/UDQ/UDQConfig.hpp>
+#include <opm/input/eclipse/Schedule/UDQ/UDQContext.hpp>
+#include <opm/input/eclipse/Schedule/UDQ/UDQDefine.hpp>
+#include <opm/input/eclipse/Schedule/UDQ/UDQFunctionTable.hpp>
+#include <opm/input/eclipse/Schedule/UDQ/UDQParams.hpp>
+#include <opm/input/eclipse/Schedule/UDQ/UDQState.hpp>
+#include <opm/input/eclipse/Schedule/UDQ/UDT.hpp>
+#include <opm/input/eclipse/Schedule/Well/NameOrder.hpp>
+#include <opm/input/eclipse/Schedule/Well/WellMatcher.hpp>
 #include <cmath>
 #include <optional>
 #include <sstream>
@@ -24,9 +38,36 @@ static Opt apply(int op, const Opt& a, const Opt& b)
 }
 static UDQSet call(int op, const UDQSet& a, const UDQSet& b) { return op == 0 ? a + b : op == 1 ? a - b : op == 2 ? a * b : a / b; }
 static std::string show(const std::vector<Opt>& v) { std::ostringstream o; o << "("; for (std::size_t i = 0; i < v.size(); ++i) { if (i) o << ", "; if (v[i]) o << *v[i]; else o << "undefined"; } o << ")"; return o.str(); }
+// the lemma undefined_reduction_then_broadcast: DEFINE WUY SUM(WUX) + WOPR with WUX undefined for every well, through the
+// real UDQDefine::eval; exit 1 = the evaluation raises instead of giving an undefined value per well
+static int undefinedReduction(const Replay& r)
+{
+    using namespace Opm;
+    KeywordLocation location; UDQParams udqp; UDQFunctionTable udqft;
+    SummaryState st(TimeService::now(), udqp.undefinedValue());
+    UDQState udq_state(udqp.undefinedValue());
+    WellMatcher wm(NameOrder({"P1", "P2"}));
+    UDQContext context(udqft, wm, {}, UDQContext::MatcherFactories{}, st, udq_state);
+    st.update_well_var("P1", "WOPR", 4); st.update_well_var("P2", "WOPR", 5);
+    st.update_well_var("OTHER", "WUX", 1);            // WUX is a known quantity, undefined for P1 and P2
+    for (const char* fn : { "SUM", "MAX", "AVEA" }) {
+        try {
+            UDQDefine def(udqp, "WUY", 0, location, { fn, "(", "WUX", ")", "+", "WOPR" });
+            const auto res = def.eval(context);
+            for (std::size_t i = 0; i < res.size(); ++i)
+                if (res[i].defined()) return r.verdict(false, std::string(fn) + "(WUX) + WOPR with WUX undefined everywhere is DEFINED for a well");
+        } catch (const std::exception& e) {
+            std::string what = e.what();
+            try { std::rethrow_if_nested(e); } catch (const std::exception& e2) { what = e2.what(); }
+            return r.verdict(false, std::string("DEFINE WUY ") + fn + "(WUX) + WOPR, WUX undefined for every well: the evaluation raises \"" + what.substr(0, 140) + "\" instead of giving undefined values");
+        }
+    }
+    return r.verdict(true, "reductions of all-undefined sets combine with well sets without raising");
+}
 int main(int argc, char** argv)
 {
     Replay r(argc, argv);
+    if (r.is("undefined_reduction")) return undefinedReduction(r);
     const std::vector<Opt> vals = { std::nullopt, -2.0, 0.0, 0.5, 3.0 };
     const char* opname[] = { "+", "-", "*", "/" };
     std::ostringstream w;
